@@ -6,6 +6,19 @@ package ramp
 //@ // ---- C10: the ramp is the single linear segment from start-rate to end-rate over the ramp duration, 0 afterwards
 //@ ghost var GRstart int
 //@
+//@ // ---- C14 (flag level): the ramp trigger is built from the flags as the user gave them; a zero ramp duration means
+//@ // the run's max-duration
+//@ func Rate$1
+//@   props C14 C10
+//@   requires flags != nil && GJclaim == 0 && G12claim == 0
+//@   ghost after call (*FlagSet).GetFloat64 : GFflt[arg1] = ret0
+//@   ghost after call (*FlagSet).GetDuration : GFdur[arg1] = ret0
+//@   ghost after call (*FlagSet).GetString : GFstr[arg1] = ret0
+//@   assert before call CalculateRampRate : [flags-as-given] arg0 == GFstr["start-rate"] && arg1 == GFstr["end-rate"] && arg2 == GFstr["distribution"] && arg4 == GFflt["jitter"] &&
+//@          arg3 == (GFdur["ramp-duration"] == 0 ? GFdur["max-duration"] : GFdur["ramp-duration"])
+//@   ensures [runnable] result.1 == nil ==> result.0 != nil && result.0.Trigger != nil && result.0.DryRun != nil
+//@   ensures [rejected] result.1 != nil ==> result.0 == nil
+//@
 //@ func CalculateRampRate$1
 //@   props C10 C14
 //@   fp-monotone
